@@ -211,5 +211,46 @@ def run(ctx):
                          "value, then environment), tuple values keep their typed layout")
     golden.check(ctx, "lowering", "golden_lowering.json")
     rule_layout_stability(ctx)
+    rule_first_arm(ctx)
     ctx.assume("continuation packaging, builtin package wiring and the assembly lowering's register/stack discipline are NOT analysed")
     return {}
+
+
+def rule_first_arm(ctx):
+    rule = "first-arm"
+    facts = ctx.facts
+    ctx.rule(rule, "a match may have several arms for one constructor and the interpreter takes the FIRST (Assign tries the arms in "
+                   "source order). Every selector of an arm by tag in the compiled pipeline agrees: the assembly interpreter uses "
+                   "`find` (first hit), and the AMD64 emitter, which de-duplicates the arms of a jump table through a map keyed by the "
+                   "constructor index, inserts them in REVERSE order so that the first arm survives. Inserting in source order keeps "
+                   "the last arm: the compiled program runs another arm than `zydeco run`")
+    emit = next((p for p in facts.bodies() if re.search(r"^<zydeco_assembly::syntax::Terminator as zydeco_amd64::emit::Emit<'a>>::emit$", p)), None)
+    if emit is None:
+        ctx.anchor_lost(rule, "<Terminator as Emit>::emit not found")
+        return
+    h = ctx.need_hir(rule, emit)
+    arm = None
+    for m in H.walk(h["body"]):
+        if H.kind(m) == "Match" and not m.get("src"):
+            for a in m["arms"]:
+                if A.pat_shape(a["pat"]).startswith("PopBranch"):
+                    arm = a
+    if arm is None:
+        ctx.anchor_lost(rule, "no PopBranch arm in <Terminator as Emit>::emit")
+        return
+    env = A.ArmEnv(); env.strip = True; env.bind_params(h); env.bind_pat(A.strip_or(arm["pat"])); env.absorb(arm["body"])
+    maps = [c for c in H.walk(arm["body"]) if H.kind(c) in ("Call", "MethodCall") and (H.callee(c) or "").endswith("Iterator::collect")
+            and re.search(r"BTreeMap|HashMap|IndexMap", c.get("ty") or "")]
+    ctx.floor(rule, "map collections of jump-table arms", len(maps), 1)
+    for c in maps:
+        sx = A.sexpr(c, env)
+        ok = "Iterator::rev" in sx.split("Iterator::map")[-1] or re.search(r"Iterator::rev \(.*PopBranch\.0", sx) is not None
+        ctx.check(ok, rule, "amd64:jump-table:first-arm-wins", "the AMD64 emitter collects the arms of a jump table into a map in source "
+                  "order (%s): a later arm for the same constructor replaces the first, which is the one the interpreter takes"
+                  % sx[:160], [facts.bodies()[emit]["loc"][0], c.get("ln")], detail={"order": "reversed before the map is built"})
+    interp = next((p for p in facts.bodies() if re.search(r"^<zydeco_assembly::syntax::Terminator as zydeco_assembly::interp::Eval>::eval$", p)), None)
+    if interp is not None:
+        hi = facts.hir(interp)
+        names = [x["name"] for x in H.walk(hi["body"]) if H.kind(x) == "MethodCall" and x["name"] in ("find", "rfind", "rposition", "position", "last", "max_by_key", "min_by_key")]
+        ctx.check("find" in names and not {"rfind", "rposition", "last"} & set(names), rule, "assembly-interp:first-arm",
+                  "the assembly interpreter selects the arm of a tag with %s" % names, facts.bodies()[interp]["loc"])
